@@ -234,10 +234,7 @@ func checkC14(e *env) {
 			r.violation(Violation{Oracle: "4096-units-per-256-pixel-tile", Op: name, Detail: fmt.Sprintf("tile width %d, level offset %d", t.TileMatrices[0].TileWidth, levelDiff)})
 		}
 		for id, tm := range t.TileMatrices {
-			if uint(id)+levelDiff > 32 {
-				continue
-			}
-			ix, err := pointindex.FromTileMatrixSet(t, id)
+			ix, err := pointindex.FromTileMatrixSet(t, id) // ids deeper than level 32 included: the index is built (only inserting into it panics there, F7)
 			if err != nil {
 				r.violation(Violation{Oracle: "index-for-accepted-set", Op: fmt.Sprintf("%s id %d", name, id), Detail: err.Error()})
 				continue
@@ -302,7 +299,7 @@ func commonScale(fs ...float64) (ints []*big.Int) {
 func checkC15(e *env) {
 	r := e.res
 	r.Rule = "every built-in tile matrix set x every tile matrix without variable widths x the four corner tiles, border tiles and random tiles (quick 12, thorough 60 per matrix) x interior points at relative offsets " +
-		"{0.5, 1e-3, 1-1e-3, random} of the tile: ToNative(tile) against the exact rational corner (within 1e-9 + 4 ulp, the code rounds to 9 decimals), FromNative(interior point) = the tile (points closer than 2e-9 + 4 ulp to a tile border are counted as skipped), " +
+		"{0.5, 1e-3, 1-1e-3, random, 1-3e-10, 3e-10, 1-2e-8} of the tile: ToNative(tile) against the exact rational corner (within 1e-9 + 4 ulp, the code rounds to 9 decimals), FromNative(interior point) = the tile (points closer than 2e-9 + 4 ulp to a tile border are counted as skipped), " +
 		"points outside the matrix extent map to no tile, MatrixBoundingBox = corner of tile (0,0) .. corner of tile (width,height), axis order x,y whatever the CRS; model: op tile (exact integer arithmetic over a common denominator). " +
 		"Non-trivial = border or corner tile, or offset within 1e-3 of a tile border; distinct by op text."
 	skipped := 0
@@ -376,7 +373,7 @@ func checkC15(e *env) {
 					r.violation(Violation{Oracle: "corner-in-x,y-order", Op: op, Impl: fmt.Sprint(pt), Detail: fmt.Sprintf("exact top-left corner (%v, %v)", xf, yf)})
 					continue
 				}
-				for _, off := range [][2]float64{{0.5, 0.5}, {1e-3, 1e-3}, {1 - 1e-3, 1 - 1e-3}, {e.rng.Float64(), e.rng.Float64()}} {
+				for _, off := range [][2]float64{{0.5, 0.5}, {1e-3, 1e-3}, {1 - 1e-3, 1 - 1e-3}, {e.rng.Float64(), e.rng.Float64()}, {1 - 3e-10, 0.5}, {0.5, 1 - 3e-10}, {3e-10, 3e-10}, {1 - 2e-8, 1 - 2e-8}} {
 					// interior point: top-left corner + (off.x * tsx, -off.y * tsy)
 					px, py := pt[0]+off[0]*tsx, pt[1]-off[1]*tsy
 					margin := 2e-9 + 16*2.3e-16*mag
@@ -415,7 +412,15 @@ func checkC15(e *env) {
 				r.violation(Violation{Oracle: "bounding-box-spans-tile(0,0)..tile(width,height)", Op: fmt.Sprintf("%s id %d", name, id), Impl: fmt.Sprint(bl, tr), Detail: fmt.Sprintf("exact corners (%v,%v) (%v,%v)", X0, Y1, X1, Y0)})
 			}
 			w, h := tr[0]-bl[0], tr[1]-bl[1]
-			for k, p := range []geom.Point{{bl[0] - 0.01*w - 1e-6, bl[1] + h/2}, {tr[0] + 0.01*w + 1e-6, bl[1] + h/2}, {bl[0] + w/2, bl[1] - 0.01*h - 1e-6}, {bl[0] + w/2, tr[1] + 0.01*h + 1e-6}, {bl[0] - w, bl[1] - h}} {
+			outside := []geom.Point{{bl[0] - 0.01*w - 1e-6, bl[1] + h/2}, {tr[0] + 0.01*w + 1e-6, bl[1] + h/2}, {bl[0] + w/2, bl[1] - 0.01*h - 1e-6}, {bl[0] + w/2, tr[1] + 0.01*h + 1e-6}, {bl[0] - w, bl[1] - h}}
+			// … and a hair outside (a fraction 3e-10 of a tile, where that is beyond the float error of the borders themselves)
+			if hair := 3e-10 * tsx; hair > 2e-9+16*2.3e-16*mag {
+				outside = append(outside, geom.Point{bl[0] - hair, bl[1] + h/2}, geom.Point{tr[0] + hair, bl[1] + h/2})
+			}
+			if hair := 3e-10 * tsy; hair > 2e-9+16*2.3e-16*mag {
+				outside = append(outside, geom.Point{bl[0] + w/2, bl[1] - hair}, geom.Point{bl[0] + w/2, tr[1] + hair})
+			}
+			for k, p := range outside {
 				_, ok := t.FromNative(uint(id), p)
 				r.count("tile-outside", fmt.Sprintf("tile-outside %s id %d side %d", name, id, k), true)
 				if ok {
